@@ -58,7 +58,15 @@ def lm_stream(ctx, hexe, dexe, n_cases, size, want=("oracle", "struct", "spec"),
                            "harness_stderr": e1[-1500:], "driver_stderr": e2[-1500:]})
             found = True
             continue
-        probs, st = lmq.compare(case, o1, o2, want=want)
+        try:
+            probs, st = lmq.compare(case, o1, o2, want=want)
+        except Exception:
+            import traceback
+            ctx.violation("%s: output of the harness/driver could not be parsed/compared for this case" % tag,
+                          {"stream": tag, "arpa": case.arpa.decode("utf-8", "replace"), "queries": case.queries,
+                           "impl_head": o1[:2], "traceback": traceback.format_exc()[-1500:]})
+            found = True
+            continue
         info = st.get("info", {})
         ctx.hist("lm.skipped", st.get("skipped"))
         ctx.hist("lm.blanks", min(info.get("blanks", 0), 20) if isinstance(info.get("blanks", 0), int) else "?")
